@@ -80,7 +80,10 @@ pub fn combine_durations(_: &SmartCalcConfig, _: &Tokinizer, fields: &BTreeMap<S
                 _ => return Err("Duration information not valid".to_string())
             };
 
-            sum_duration = sum_duration + duration;
+            sum_duration = match sum_duration.checked_add(&duration) {
+                Some(sum) => sum,
+                None => return Err("Duration information not valid".to_string())
+            };
         }
 
         return Ok(TokenType::Duration(sum_duration));
